@@ -823,11 +823,12 @@ func (c *cluster) populate(n int) {
 }
 
 const (
-	evPDTransfer  = "pd-transfer"
-	evPDResign    = "pd-resign"
-	evAllocReset  = "alloc-reset"
-	evAdminReset  = "admin-reset"
-	evMemberCycle = "member-restart"
+	evPDTransfer   = "pd-transfer"
+	evPDResign     = "pd-resign"
+	evAllocReset   = "alloc-reset"
+	evAdminReset   = "admin-reset"
+	evMemberCycle  = "member-restart"
+	evClusterCycle = "cluster-restart"
 )
 
 // eventPlan fixes, from the seed, which rounds run which event.
@@ -902,6 +903,8 @@ func (c *cluster) event(kind string, rng *rand.Rand, dcs []string) {
 		}
 	case evMemberCycle:
 		c.cycleMember(rng.Intn(len(c.cfgs)), rng)
+	case evClusterCycle:
+		c.cycleCluster()
 	}
 }
 
@@ -921,18 +924,34 @@ func (c *cluster) cycleMember(i int, rng *rand.Rand) {
 		delete(c.conns, i)
 	}
 	c.mu.Unlock()
-	c.note("event: member m%d stops", i)
-	m.Stop()
-	time.Sleep(time.Duration(100+rng.Intn(300)) * time.Millisecond)
 	var nm *srv.Member
 	var err error
-	for k := 0; k < 4; k++ {
+	if rng.Intn(2) == 0 {
+		// Close and Run again on the SAME server object, server context still alive (what the
+		// repository's own tests do with svr.Close(); svr.Run())
+		c.note("event: member m%d is closed and run again on the same object", i)
+		m.Srv.Close()
+		time.Sleep(time.Duration(100+rng.Intn(300)) * time.Millisecond)
+		if err = m.Srv.Run(); err == nil {
+			nm = m
+			c.r.Count("events_member_rerun_same_object", 1)
+		} else {
+			m.Stop()
+		}
+	} else {
+		// the server context is cancelled first, then the server is closed (pd-server's shutdown order)
+		c.note("event: member m%d stops (context cancelled, then closed)", i)
+		m.Stop()
+		time.Sleep(time.Duration(100+rng.Intn(300)) * time.Millisecond)
+	}
+	for k := 0; k < 4 && nm == nil; k++ {
 		if nm, err = srv.Start(c.cfgs[i]); err == nil {
 			break
 		}
+		nm = nil
 		time.Sleep(time.Second)
 	}
-	if err != nil {
+	if nm == nil {
 		c.note("event: member m%d did not come back: %v", i, err)
 		c.r.Count("events_member_restart_failed", 1)
 		return
@@ -943,6 +962,59 @@ func (c *cluster) cycleMember(i int, rng *rand.Rand) {
 	c.mu.Unlock()
 	c.note("event: member m%d is back", i)
 	c.r.Count("events_member_restart", 1)
+}
+
+// cycleCluster stops every member and starts them all again on their data directories: the next PD
+// leader and every allocator leader are freshly started processes (never a follower in this life)
+// that have nothing but the persisted state.
+func (c *cluster) cycleCluster() {
+	c.mu.Lock()
+	old := append([]*srv.Member(nil), c.ms...)
+	var cfgs []*config.Config
+	var idx []int
+	for i, m := range old {
+		if m != nil {
+			c.stopped[i] = true
+			c.ms[i] = nil
+			cfgs = append(cfgs, c.cfgs[i])
+			idx = append(idx, i)
+		}
+	}
+	for i, cc := range c.conns {
+		cc.Close()
+		delete(c.conns, i)
+	}
+	c.mu.Unlock()
+	c.note("event: the whole cluster stops")
+	var wg sync.WaitGroup
+	for _, m := range old {
+		if m != nil {
+			wg.Add(1)
+			go func(m *srv.Member) { defer wg.Done(); m.Stop() }(m)
+		}
+	}
+	wg.Wait()
+	var ms []*srv.Member
+	var err error
+	for k := 0; k < 3; k++ {
+		if ms, err = srv.StartCluster(cfgs); err == nil {
+			break
+		}
+		time.Sleep(time.Second)
+	}
+	if err != nil {
+		c.note("event: the cluster did not come back: %v", err)
+		c.r.Count("events_cluster_restart_failed", 1)
+		return
+	}
+	c.mu.Lock()
+	for k, m := range ms {
+		c.ms[idx[k]] = m
+		delete(c.stopped, idx[k])
+	}
+	c.mu.Unlock()
+	c.note("event: the whole cluster is back")
+	c.r.Count("events_cluster_restart", 1)
 }
 
 // spread puts the local allocator leaders of different dcs on different members (each on a member
@@ -1051,7 +1123,7 @@ func (c *cluster) skewedRounds(rng *rand.Rand, dcs []string, n int) {
 	// must continue above what has been handed out (a new leader only has the stored window).
 	kinds := []string{evAllocReset, evPDTransfer}
 	if r.Thorough() {
-		kinds = append(kinds, evMemberCycle, evAllocReset)
+		kinds = append(kinds, evMemberCycle, evAllocReset, evClusterCycle)
 	}
 	for k, kind := range kinds {
 		c.event(kind, rng, dcs)
@@ -1275,7 +1347,7 @@ func runTopology(r *ev.Run, t topo, rng *rand.Rand, rounds int) {
 
 func main() {
 	r := ev.New("C05", "exploration")
-	r.Rule("per topology (3 real servers, local TSO on, zone labels): rounds of {4-8 requester goroutines per dc x 5-12 requests, 1-4 global requesters x 3-7 requests, one chain worker local->global->local}, counts from {1,10,1000,2^15} (every 5th round mostly 2^15), transport per requester from {HandleTSORequest on the serving member, gRPC Tso stream, forwarded gRPC Tso stream}, 4% of requests to a random member; each topology starts with a quiet sequential phase global/local with equal counts; topologies: 3 dcs x 1 member, 2 dcs 2+1, 1 dc, a dc joining later (4 variants: placement of the running allocator relative to the PD leader forced or free, allocators moved 8 s ahead of the wall clock by the admin reset-ts operation or not), allocator moves; the static 3-dc and 2-dc topologies end with 30 (thorough 60) sequential skewed-dc rounds: allocator leaders spread over different members, every local allocator pushed ahead by a different lead (1/2/4 s, rotating) through SetTSO, then local x dcs, global, local x dcs, and an aftermath of allocator reset / PD leader transfer (thorough: + member restart) while the TSO is minutes ahead of the wall clock; during the concurrent rounds of the static topologies every 4th (thorough 5th) round runs one event from {PD leader transfer through the etcd leadership, PD leader resign, local allocator reset on its leader, admin reset-ts +2 s followed by an allocator reset, member stop + restart}; one static topology has dc names that are prefixes of each other and 2500 unrelated keys in its etcd root; distinct = (topology, round index, goroutine counts per dc, round seed) resp. (topology, skewed round index, lead per dc). Add-on: gated schedules of suffix assignment with a PD-leader change (old leader parked before its create-if-absent txn; release order by seed); distinct = (keys the two leaders were about to create, release order); and 15-member worlds (dc-location upper limit, prefix-related dc names, populated root) whose suffixes are assigned in two waves by two successive PD leaders")
+	r.Rule("per topology (3 real servers, local TSO on, zone labels): rounds of {4-8 requester goroutines per dc x 5-12 requests, 1-4 global requesters x 3-7 requests, one chain worker local->global->local}, counts from {1,10,1000,2^15} (every 5th round mostly 2^15), transport per requester from {HandleTSORequest on the serving member, gRPC Tso stream, forwarded gRPC Tso stream}, 4% of requests to a random member; each topology starts with a quiet sequential phase global/local with equal counts; topologies: 3 dcs x 1 member, 2 dcs 2+1, 1 dc, a dc joining later (4 variants: placement of the running allocator relative to the PD leader forced or free, allocators moved 8 s ahead of the wall clock by the admin reset-ts operation or not), allocator moves; the static 3-dc and 2-dc topologies end with 30 (thorough 60) sequential skewed-dc rounds: allocator leaders spread over different members, every local allocator pushed ahead by a different lead (1/2/4 s, rotating) through SetTSO, then local x dcs, global, local x dcs, and an aftermath of allocator reset / PD leader transfer (thorough: + member restart and a restart of the whole cluster) while the TSO is minutes ahead of the wall clock; during the concurrent rounds of the static topologies every 4th (thorough 5th) round runs one event from {PD leader transfer through the etcd leadership, PD leader resign, local allocator reset on its leader, admin reset-ts +2 s followed by an allocator reset, member stop + restart}; one static topology has dc names that are prefixes of each other and 2500 unrelated keys in its etcd root; distinct = (topology, round index, goroutine counts per dc, round seed) resp. (topology, skewed round index, lead per dc). Add-on: gated schedules of suffix assignment with a PD-leader change (old leader parked before its create-if-absent txn; release order by seed); distinct = (keys the two leaders were about to create, release order); and 15-member worlds (dc-location upper limit, prefix-related dc names, populated root) whose suffixes are assigned in two waves by two successive PD leaders")
 	r.Assume("the logical clock (lib/hist) orders call/return events of all requesters of the process; a suffix is taken as stored when the etcd watch has delivered it before the request's call tick (under-approximation)")
 	r.Assume("errors grant nothing and impose no constraint; clock failpoints are not used; all members run in one process on one wall clock")
 	rng := rand.New(rand.NewSource(r.ShardSeed()))
